@@ -13,6 +13,50 @@ def frameStr (f : Frame) : String :=
 
 def parseBool (s : String) : Bool := s == "1"
 
+def instStr (i : Inst) : String :=
+  let pl := match i.plen with | none => "None" | some n => toString n
+  s!"fin={boolStr i.fin} rsv={boolStr i.rsv1}{boolStr i.rsv2}{boolStr i.rsv3} op={i.opcode} masked={boolStr i.masked} plen={pl} mask={hexOpt i.mask} data={hexOpt i.data}"
+
+def optHex (s : String) : Option (Option Bytes) :=
+  if s == "None" then some none else (unhex s).map some
+
+def endStr : LoopEnd → String
+  | .drained => "drained" | .closed => "closed" | .failed e => s!"exc {errStr e}" | .fuel => "fuel"
+
+/-- one operation on the reused instance; `none` = malformed op -/
+def instOp (rnd : Bytes) (s : Inst) (tok : String) : Option (Except String (Inst × String)) :=
+  match tok.splitOn "=" with
+  | ["R"] => some (.ok (s.reset, "reset"))
+  | ["B"] =>
+    match buildSt rnd s with
+    | .ok (s', raw) => some (.ok (s', s!"built {hex raw} {instStr s'}"))
+    | .error e => some (.error s!"exc build {errStr e}")
+  | ["P", raw] =>
+    match unhex raw with
+    | none => none
+    | some raw =>
+      match parseSt s raw with
+      | .ok (s', t) => some (.ok (s', s!"parsed {instStr s'} tail={hex t}"))
+      | .error e => some (.error s!"exc parse {errStr e}")
+  | ["S", spec] =>
+    match spec.splitOn "," with
+    | [fl, op, m, mask, data] =>
+      match fl.toList, op.toNat?, optHex mask, optHex data with
+      | [a, b, c, d], some op, some mask, some data =>
+        some (.ok ({ s with fin := a == '1', rsv1 := b == '1', rsv2 := c == '1', rsv3 := d == '1',
+                            opcode := op, masked := parseBool m, mask := mask, data := data }, "set"))
+      | _, _, _, _ => none
+    | _ => none
+  | _ => none
+
+def instRun (rnd : Bytes) : Inst → List String → List String → Option (List String)
+  | _, [], acc => some acc.reverse
+  | s, tok :: toks, acc =>
+    match instOp rnd s tok with
+    | none => none
+    | some (.error e) => some (e :: acc).reverse
+    | some (.ok (s', out)) => instRun rnd s' toks (out :: acc)
+
 /-- `ws build <fin> <r1> <r2> <r3> <opcode> <masked> <mask|None> <rnd> <data>`
     `ws parse <raw>`  `ws rt <fin> … <data> <tail>` (build, append tail, parse) -/
 def drv (args : List String) : String :=
@@ -47,6 +91,19 @@ def drv (args : List String) : String :=
         | .ok (g, t) => s!"ok {frameStr g} tail={hex t}"
         | .error e => s!"exc parse {errStr e}"
     | _, _, _ => "bad-op"
+  | "inst" :: rnd :: ops =>
+    match unhex rnd with
+    | none => "bad-op"
+    | some rnd =>
+      match instRun rnd Inst.fresh ops [] with
+      | none => "bad-op"
+      | some outs => " | ".intercalate outs
+  | ["loop", raw] =>
+    match unhex raw with
+    | none => "bad-op"
+    | some raw =>
+      let r := webLoopTop raw
+      " | ".intercalate (r.1.map instStr ++ [endStr r.2])
   | ["accept", guid, key] =>
     match unhex guid, unhex key with
     | some g, some k => s!"ok {hex (Px.Sha1.keyToAccept g k)}"
